@@ -11,11 +11,11 @@ package db
 // forces a non-nil error result (`propagates`). `best-effort` lines are documentation (parsed, no obligation): the
 // storage calls whose failure is deliberately not reported, with the source line that says so.
 
-// Clauses that FAIL on the current code (candidate findings; demonstrations in
+// FIXED (commits ee8cc3d, 13933dc; the obligations discharge now): Document.persistModifiedRevisionBodies/propagates/persistRevisionBody#1
+// (a failed AddRaw of a revision body returned nil) and DatabaseContext.UpdatePrincipal/post/release-on-failed-save (F4).
+// Clauses that FAIL on the current code (known findings; demonstrations in
 // /verif/findings/C11_db_swallowed_and_leaked_test.go):
-//   Document.persistModifiedRevisionBodies/propagates/persistRevisionBody#1  a failed AddRaw of a revision body returns nil (document.go:914-917 returns the wrong err)
 //   DatabaseCollectionWithUser.documentUpdateFunc/post/keeps-unused          every error return drops the caller's list of abandoned sequences (named result stays nil)
-//   DatabaseContext.UpdatePrincipal/post/release-on-failed-save              F4: sequence not released when Save fails with a non-CAS error (users.go:227-229)
 //   DatabaseContext.DeleteRole/post/release-on-failure                       the sequence reserved at users.go:36 is never released
 // Limitation of `propagates` (loop-free reading): an error swallowed by `continue` inside a loop is not detected
 // (setAttachments: mutation `return err` -> `continue` passes).
@@ -31,9 +31,13 @@ package db
 
 // Every failed AddRaw stops the loop with its error; an over-long attachment is an error.
 //@ func DatabaseCollectionWithUser.setAttachments
+//@   props C11 C14
 //@   modifies *
 //@   only-contracts none
 //@   propagates AddRaw#1
+// (C14) what is stored under an attachment key is exactly the body filed under that key, never expiring, within the size limit
+//@   before[stores-entry] call AddRaw#1 ($2 in attachments) && $4 == attachments[$2].body && $3 == 0
+//@   before[size-checked] call AddRaw#1 len($4) <= maxAttachmentSizeBytes
 
 //@ func DatabaseCollectionWithUser.addAttachments
 //@   modifies *
@@ -142,21 +146,22 @@ package db
 // e-mail address is dropped from the update, the rest of the update is applied (documented behaviour of the admin API).
 // best-effort: releaseSequence#1 - users.go:224-226 logs "Error releasing unused sequence".
 // [release-on-cas-retry]: the sequence reserved by an attempt that lost the CAS race is handed to releaseSequence.
-// [release-on-failed-save] (candidate finding F4): when Save fails with an error that is neither a CAS mismatch (retried)
+// [release-on-failed-save] (F4, FIXED by commit 13933dc: second releaseSequence call site, users.go non-CAS branch): when Save fails with an error that is neither a CAS mismatch (retried)
 // nor a timeout (outcome unknown), a release attempt is made for the sequence reserved for this attempt. Stated as a
-// path fact (the one releaseSequence call site of the function, whose argument is pinned by [release-on-cas-retry], is
-// executed): the ghost formulation `nextSeq in releaseAttempted` needs releaseSequence's precondition
+// path fact (the releaseSequence call site of the non-CAS branch, whose argument is pinned by
+// [release-on-failed-save-arg], is executed): the ghost formulation `nextSeq in releaseAttempted` needs releaseSequence's precondition
 // dbc.sequences != nil at the call site, which cannot be carried through the ~40 uncontracted interface calls of the loop body.
 //@ func DatabaseContext.UpdatePrincipal
 //@   modifies *
-//@   only-contracts IsCasMismatch, Errorf, HTTPErrorf
-//@   best-effort SetEmail#1 releaseSequence#1
+//@   only-contracts IsCasMismatch, IsTimeoutError, Errorf, HTTPErrorf
+//@   best-effort SetEmail#1 releaseSequence#1 releaseSequence#2
 //@   propagates GetUser#1 GetRole#1 NewUserNoChannels#1 NewRoleNoChannels#1 RequiresCollectionAccessUpdate#1 SetPassword#1 nextSequence#1 Save#1
 //@   loop 1 invariant[cas-pending] i > 1 ==> !isNilErr(err)
 //@   before[release-on-cas-retry] call releaseSequence#1 $2 == callres(nextSequence, 1, 0) && isCasMismatchErr(callres(Save, 1, 0))
+//@   before[release-on-failed-save-arg] call releaseSequence#2 $2 == callres(nextSequence, 1, 0) && !isNilErr(callres(Save, 1, 0)) && !isCasMismatchErr(callres(Save, 1, 0))
 //@   ensures[retries-exhausted] callres(AllOrNoneNil, 1, 0) && !called(GetUser, 1) && !called(GetRole, 1) ==> !isNilErr(err)   // the return after the loop
 //@   ensures[saved-or-unchanged] isNilErr(err) ==> !called(nextSequence, 1) || (called(Save, 1) && isNilErr(callres(Save, 1, 0)))
-//@   ensures[release-on-failed-save] called(Save, 1) && !isNilErr(callres(Save, 1, 0)) && !isCasMismatchErr(callres(Save, 1, 0)) && !isTimeoutErr(callres(Save, 1, 0)) ==> called(releaseSequence, 1)
+//@   ensures[release-on-failed-save] called(Save, 1) && !isNilErr(callres(Save, 1, 0)) && !isCasMismatchErr(callres(Save, 1, 0)) && !isTimeoutErr(callres(Save, 1, 0)) ==> called(releaseSequence, 2)
 
 // ---- Purge ----
 // The load, the attachment listing and the delete of the document surface; nil only after the delete succeeded.
